@@ -176,15 +176,20 @@ def direct_route_with_transforming_geometry(c, geom):
 
 class StubSolver:
     calls = []
+    sign = -1                                  # a minimiser is handed the NEGATIVE log-density and its gradient
     def __init__(self, func, x0, gradfunc=None, **kw):
         self.func = func; self.x0 = x0; self.gradfunc = gradfunc; StubSolver.calls.append(self)
         self.x = np.array([core.SReal(core.fresh('opt')) for _ in range(len(x0))], dtype=object)
     def solve(self): return self.x, {'success': True}
 
 
+class StubMaximiser(StubSolver):
+    sign = +1                                  # cuqi.solver.maximize is handed the log-density and its gradient themselves
+
+
 def _opt_extra():
     fw = Forward(cuqi, 'cuqi'); sol = Forward(cuqi.solver, 'cuqi.solver')
-    object.__setattr__(sol, 'minimize', StubSolver); object.__setattr__(sol, 'L_BFGS_B', StubSolver)
+    object.__setattr__(sol, 'minimize', StubSolver); object.__setattr__(sol, 'L_BFGS_B', StubSolver); object.__setattr__(sol, 'maximize', StubMaximiser)
     object.__setattr__(fw, 'solver', sol)
     return {PR: dict(cuqi=fw)}
 
@@ -194,7 +199,10 @@ def optimisation_route(c, which, prior_kind):
     n = 2; m = 2
     A = c.mat('A', m, n)
     model = Model(lambda x: A @ (x ** 3 + x), m, n, jacobian=lambda x: A * (3 * x ** 2 + 1))
-    x = Gaussian(c.vec('mu', n), c.real('pv', pos=True), name='x') if prior_kind == 'Gaussian' else Cauchy(c.vec('mu', n), c.real('pv', pos=True), name='x')
+    if prior_kind == 'Gaussian': x = Gaussian(c.vec('mu', n), c.real('pv', pos=True), name='x')
+    elif prior_kind == 'CMRF': x = cuqi.distribution.CMRF(c.vec('mu', n), c.real('pv', pos=True), 'zero', geometry=n, name='x')      # (the route reserved for this prior: L-BFGS-B)
+    else: x = Cauchy(c.vec('mu', n), c.real('pv', pos=True), name='x')
+    if c.sym and prior_kind == 'CMRF': shims.symbolize_operators(x)
     y = Gaussian(model(x), c.real('nv', pos=True), name='y')
     BP = BayesianProblem(y, x).set_data(y=c.vec('yobs', m))
     StubSolver.calls.clear()
@@ -202,9 +210,10 @@ def optimisation_route(c, which, prior_kind):
     dens = BP.posterior if which == 'MAP' else BP.likelihood
     call = StubSolver.calls[-1]
     v = c.vec('v', n)
-    c.eq('objective_is_negative_log_density', call.func(v), -dens.logd(v))
+    sg = call.sign
+    c.eq('objective_is_negative_log_density', call.func(v), sg * dens.logd(v))           # (the log-density itself when the maximising wrapper is used)
     c.holds('gradient_is_passed', call.gradfunc is not None)
-    c.eq('gradient_is_negative_gradient_of_the_density', call.gradfunc(v), -dens.gradient(v))
+    c.eq('gradient_is_negative_gradient_of_the_density', call.gradfunc(v), sg * dens.gradient(v))
     c.eq('estimate_is_the_optimisers_result_unchanged', np.asarray(est), call.x)
     c.holds('estimate_wrapped_with_geometry', isinstance(est, cuqi.array.CUQIarray) and est.geometry == dens.geometry)
     c.eq('default_start_is_the_ones_vector', np.asarray(call.x0, dtype=float), np.ones(n))
@@ -213,7 +222,8 @@ def optimisation_route(c, which, prior_kind):
     est2 = BP.MAP(disp=False, x0=x0) if which == 'MAP' else BP.ML(disp=False, x0=x0)
     call2 = StubSolver.calls[-1]
     c.eq('given_start_point_is_passed_to_the_optimiser', call2.x0, x0)
-    c.eq('objective_with_given_start_is_still_the_negative_log_density', call2.func(v), -dens.logd(v))
+    c.eq('objective_with_given_start_is_still_the_negative_log_density', call2.func(v), call2.sign * dens.logd(v))
+    c.eq('gradient_with_given_start_is_still_the_negative_gradient', call2.gradfunc(v), call2.sign * dens.gradient(v))
     c.eq('estimate_with_given_start_is_the_optimisers_result', np.asarray(est2), call2.x)
 
 
@@ -308,7 +318,7 @@ def jobs(tier):
                      allow_exc=True, rtol=1e-4, timeout=600))
     J.append(Job('MAP:closed_form:after_compute_cov:sqrtprec_triangular_and_vector_prec', map_after_compute_cov, 'Pbox', FL + ['cuqi.distribution._gaussian:Gaussian.compute_cov'], allow_exc=True, rtol=1e-4, timeout=600))
     for which in ('MAP', 'ML'):
-        for pk in ('Gaussian', 'Cauchy'):
+        for pk in ('Gaussian', 'Cauchy', 'CMRF'):
             J.append(Job(f'{which}:optimisation_route:wrapper:prior={pk}', lambda c, w=which, pk=pk: optimisation_route(c, w, pk), 'Pbox',
                          [f'{PR}:BayesianProblem._solve_max_point', f'{PR}:BayesianProblem.{which}'], extra=_opt_extra, num=False))
     J.append(Job('MAP:optimisation_route:objective_undefined_at_the_start_point', optimisation_failure, 'B', [f'{PR}:BayesianProblem._solve_max_point'], nnum=3))
